@@ -184,6 +184,19 @@ structure OReq where
   header : Bytes → Bytes
   original : Option Bytes := none
 
+/-- `strings.Contains` -/
+def contains (s sub : Bytes) : Bool := decide (index s sub ≥ 0)
+
+/-- the request as `binding.Auto` sees it -/
+structure BReq where
+  method : Bytes
+  header : Bytes → Bytes
+
+/-- which binder `binding.Auto` handed the request to -/
+inductive BindSrc
+  | none | query | form | multipart | json | xml
+  deriving DecidableEq, Repr
+
 /-- what `Router.QuickMatch` calls, over an abstract router state `σ` (the route cache may change when a
     dynamic route is matched), abstract routes `ρ` and parameter maps `π` -/
 structure QMEnv (σ ρ π : Type) where
